@@ -244,8 +244,12 @@ func c01ReadsMark(p *Prog, v ssa.Value) bool {
 // behindDepthStep: the call c is reached only after a depth step in its own function: on the nil edge of the result of
 // a depthStepFunc, or on the accepting edge of a refusing comparison of a counter with a constant.
 func behindDepthStep(p *Prog, c ssa.Instruction) bool {
-	f := c.Parent()
-	return Guarded(c, func(cond ssa.Value, pol bool) bool {
+	return Guarded(c, depthStepEdge(p, c.Parent())) || behindBoolDepthStep(p, c)
+}
+
+// depthStepEdge: the edge of a branch of f on which a depth step has been taken and was within its bound.
+func depthStepEdge(p *Prog, f *ssa.Function) EdgePred {
+	return (func(cond ssa.Value, pol bool) bool {
 		bo, ok := cond.(*ssa.BinOp)
 		if !ok {
 			return false
@@ -270,7 +274,7 @@ func behindDepthStep(p *Prog, c ssa.Instruction) bool {
 			return true
 		}
 		return false
-	}) || behindBoolDepthStep(p, c)
+	})
 }
 
 // behindBoolDepthStep: c is reached only on the `within` edge of the result of an enter-helper (boolDepthStep) whose
